@@ -151,12 +151,32 @@ def validate (maxFiles : Nat) (maxBytes : Option Nat) (cleanupZero syncZero useS
   else if useSub && levels = 0 then false
   else true
 
+/-- the cleanup task's treatment of one key: still indexed with an ended TTL → unindex, delete
+the file, adjust the counters (the same three steps as the expired path of `get`) -/
+def dropIfExpired (s : State) (k : Key) : State :=
+  match lookup k s.index with
+  | some e => if e.short then { unindex s k e with files := erase k s.files } else s
+  | none => s
+
+/-- one tick of the cleanup task `new_with_background_tasks` spawns (after the fix that lets it
+adjust the cache's own counters), for a cache within `max_files` / `max_disk_bytes` whose entries
+are younger than 24 h (the harness's configuration): under the index write lock every entry whose
+TTL has ended is removed from the index and its file deleted; counters adjusted per deleted file. -/
+def cleanupTick (s : State) : State :=
+  ((s.index.filter (fun p => p.2.short)).map (·.1)).foldl dropIfExpired s
+
 structure XState where
   s : State
   m : Metrics
   deriving Repr
 
 def xinit : XState := { s := init, m := .zero }
+
+inductive XOp where
+  | base (op : Op)
+  /-- a tick of the cleanup task (instances made by `new_with_background_tasks` only) -/
+  | cleanup
+  deriving Repr
 
 inductive XOut where
   | base (o : Out)
@@ -165,17 +185,22 @@ inductive XOut where
 
 /-- `get` records a hit exactly when it returns a value (the read-error path records a miss);
 `clear` resets the metrics; a re-created instance starts with fresh ones. -/
-def xstep (cfg : Config) (x : XState) : Op → XState × XOut
-  | .get k =>
+def xstep (cfg : Config) (x : XState) : XOp → XState × XOut
+  | .cleanup => ({ x with s := cleanupTick x.s }, .base .unit)
+  | .base (.get k) =>
     let r := Model.DiskCache.get x.s k
     ({ s := r.1, m := x.m.record (match r.2 with | .hit _ => true | _ => false) }, .base (.got r.2))
-  | .clear => ({ s := (step cfg x.s .clear).1, m := .zero }, .base .unit)
-  | .reopen => ({ s := (step cfg x.s .reopen).1, m := .zero }, .base .unit)
-  | .stats => (x, .stats x.s.count x.s.bytes x.m.gets x.m.hits x.m.misses)
-  | op => let r := step cfg x.s op; ({ x with s := r.1 }, .base r.2)
+  | .base .clear => ({ s := (step cfg x.s .clear).1, m := .zero }, .base .unit)
+  | .base .reopen => ({ s := (step cfg x.s .reopen).1, m := .zero }, .base .unit)
+  | .base .stats => (x, .stats x.s.count x.s.bytes x.m.gets x.m.hits x.m.misses)
+  | .base op => let r := step cfg x.s op; ({ x with s := r.1 }, .base r.2)
 
-def xrun (cfg : Config) (x : XState) (ops : List Op) : XState :=
+def xrun (cfg : Config) (x : XState) (ops : List XOp) : XState :=
   ops.foldl (fun x op => (xstep cfg x op).1) x
+
+def absXOp (cfg : Config) : XOp → Cascette.Spec.CacheMap.Op
+  | .base op => absOp cfg op
+  | .cleanup => .other
 
 end Disk
 
